@@ -1,6 +1,7 @@
 import ParryModel.Proto
 import ParryModel.C19.DriverExt
 import ParryModel.C11.Model
+import ParryModel.C19.ModelAcc
 /-!
 # C19 protocol handlers, round fu4: the SCALED composite shape behaves as a shape
 
@@ -353,8 +354,39 @@ def accHandler (dim : Nat) : Handler := {
 def fbx3 (b : V3 Float × V3 Float) : String := s!"{fv3 b.1} {fv3 b.2}"
 def fbx2 (b : V2 Float × V2 Float) : String := s!"{fv2 b.1} {fv2 b.2}"
 
+/-! ## routing of `scale_dyn` -/
+open Model.Acc in
+partial def kindOf : Sh3 → Kind3
+  | .ball .. => .ball | .cuboid .. => .cuboid | .capsule .. => .capsule | .cone .. => .cone | .cyl .. => .cyl
+  | .seg .. => .seg | .tri .. => .tri | .hs .. => .hs | .poly .. => .polyh | .polyh .. => .polyh
+  | .trimesh .. => .trimesh | .polyline .. => .polyline | .hf .. => .hf
+  | .round (.cuboid ..) _ => .rcuboid | .round (.cyl ..) _ => .rcyl | .round (.cone ..) _ => .rcone
+  | .round (.tri ..) _ => .rtri | .round _ _ => .rpolyh
+  | .compound ps => .compound (ps.map fun ((_, p) : Iso3 Rat × Sh3) => kindOf p)
+open Model.Acc in
+partial def fkind : Kind3 → String
+  | .ball => "ball" | .cuboid => "cuboid" | .capsule => "capsule" | .cone => "cone" | .cyl => "cyl" | .seg => "seg" | .tri => "tri"
+  | .hs => "hs" | .polyh => "polyh" | .trimesh => "trimesh" | .polyline => "polyline" | .hf => "hf" | .rcuboid => "rcuboid"
+  | .rcyl => "rcyl" | .rcone => "rcone" | .rtri => "rtri" | .rpolyh => "rpolyh"
+  | .compound ps => ps.foldl (fun s p => s ++ " " ++ fkind p) s!"compound {ps.length}"
+
 def handler (fn : String) : Option Handler :=
   match fn with
+  | "scale_dyn_kind3" => some {
+      -- the scale is compared at `Float` (`==`), the descriptor only contributes its kind
+      model := fun a => (run (do let S ← psh3; let s ← pv3; let _n ← pnat; pure (S, s)) a).map fun (S, s) =>
+        fkind (Model.Acc.scaleDynKind s (kindOf S))
+      oracle := fun a o =>
+        match run (do let S ← psh3; let s ← pq3; let n ← pnat; pure (S, s, n)) a with
+        | none => "skip bad-args"
+        | some (_, s, n) =>
+          if s.x = 0 || s.y = 0 || s.z = 0 then "skip degenerate-scale" else
+          if n < 3 then "skip fewer-than-3-subdivisions" else
+          match o with
+          | "panic" :: _ => "fail panic"
+          | ["none"] => "fail none-for-a-non-degenerate-scale"
+          | "unknown-shape" :: _ => "fail unknown-shape"
+          | _ => "pass" }
   | "acc3" => some (accHandler 3)
   | "acc2" => some (accHandler 2)
   | "aabb_scaled3" => some {
